@@ -92,3 +92,11 @@ package utils
 //@       ? (len(ready) == $head(len(ready)) + 1 && len(notReady) == $head(len(notReady)) && ready[len(ready)-1] == domainEndpoint)
 //@       : (len(notReady) == $head(len(notReady)) + 1 && len(ready) == $head(len(ready)) && notReady[len(notReady)-1] == domainEndpoint)
 //@ end
+
+// C06 — the endpoints are returned in Target order whatever order the API
+// listed them in (server names are given in this order)
+//@ func CreateEndpoints#sorted
+//@   props C06
+//@   at call Slice#2 assert ready-sorted: forall a int, b int :: 0 <= a && a < b && b < len(ready) ==> !(ready[b].Target < ready[a].Target)
+//@   ensures notready-sorted: forall a int, b int :: 0 <= a && a < b && b < len(result.1) ==> !(result.1[b].Target < result.1[a].Target)
+//@ end
